@@ -39,6 +39,8 @@ def build_tracer(ck):
 def generate(ck, units, prefix="C24"):
     groups = {}
     for u in units:
+        if u.name.startswith("X"):
+            continue  # evaluated exactly against expectations composed in the harness, not emitted to Lean
         groups.setdefault(group(u.name), []).append(u)
     stats = {}
     for g, us in sorted(groups.items()):
@@ -86,7 +88,7 @@ def run(ck):
     props = [NS + p for p in tier_props]
     res = ck.lean(props, props)
     rng = random.Random(ck.seed)
-    refs = c24ref.c24_refs()
+    refs = c24ref.c24_refs(units)
     trials = 2 if ck.quick else 10
     found, stats = c24ref.search(ck, units, refs, rng, tracer, trials=trials)
     names = [u.name for u in units]
